@@ -228,6 +228,11 @@ pub fn run(ctx: &mut Ctx) {
                 _ => gen::doc(&mut rng, &gen::DOC_DEFAULT),
             })
             .collect();
+        let mut pool = pool;
+        if i % 53 == 7 && !ctx.miri {
+            pool.push(gen::big_doc(&mut rng, false));
+            pool.push(gen::big_doc(&mut rng, false));
+        }
         let ncalls = rng.below(19) + 2;
         let calls: Vec<Call> = (0..ncalls).map(|_| random_call(&mut rng, &pool)).collect();
         // prior buffer content: empty, sentinel bytes, or something that looks like JSONB
